@@ -28,7 +28,7 @@ func checkC15(c *Ctx) {
 		"K4 builders do not write their input packet (E3, shared with C20)")
 	r.NotDecided = append(r.NotDecided, "byte-for-byte equality of echoed options beyond 'the stored value is the source value'", "interplay with arbitrary user modifiers")
 	e6CheckProp(c, "C15-K2", "C15", 22)
-	containerRules(c, "C15-K9")
+	containerRules(c, "C15-K9", "4")
 	flagRules(c, "C15-K10")
 	c15Order(c)
 	// "copies … when present, omits them otherwise" is decided on the decoded option map: a code's value is
@@ -165,7 +165,7 @@ func checkC13(c *Ctx) {
 		"K7 (shared C10-K1/K2/K7, C01-K4) the messages an exchange is built from are the ones received: per-datagram read buffer, decoded message not aliasing it, option values = bytes consumed for that code")
 	r.NotDecided = append(r.NotDecided, "behaviour under arbitrary server histories beyond what C10–C12 give", "correctness of net.IP.Equal")
 	e6CheckProp(c, "C13-K1", "C13", 18)
-	containerRules(c, "C13-K8")
+	containerRules(c, "C13-K8", "46")
 	flagRules(c, "C13-K9")
 	c13Nak(c)
 	c13Release(c)
@@ -180,6 +180,11 @@ func checkC13(c *Ctx) {
 			continue
 		}
 		c10RecvLoop(c, a)
+		// "a server answering any subset of the client's messages": an unanswered DISCOVER/REQUEST/SOLICIT is sent again
+		// — the retry driver recognises the try's own deadline and nothing else (shared with C12-K1/K4/K6)
+		c12Retry(c, a)
+		c12Transmit(c, a)
+		c12Map(c, a)
 	}
 	c09Reassembly2(c, "C13-K7")
 	// the matchers compare ServerIdentifier() and MessageType(): both must report option 54 / 53 and nothing else
@@ -326,7 +331,7 @@ func checkC16(c *Ctx) {
 		"K5 'after a trip over the wire': the schema rows of optRelayMsg, optInterfaceID, OptRemoteID and the relay header (C02-K2, re-evaluated)")
 	r.NotDecided = append(r.NotDecided, "equality of nested values after a wire round trip beyond slot/field agreement")
 	e6CheckProp(c, "C16-K1", "C16", 8)
-	containerRules(c, "C16-K9")
+	containerRules(c, "C16-K9", "6")
 	c16RelayRepl(c)
 	c16ReplyTypes(c)
 	e2CheckLayouts(c, "C16-K5", func(name string, f *ssa.Function) bool {
